@@ -647,6 +647,11 @@ func init() {
 				switch {
 				case strings.Trim(chars, "\r\n") == "":
 					acc = symOr(acc, symBool{"(not (clean " + x.t + "))"})
+				case strings.Contains(chars, "*") && strings.Contains(chars, "?") && strings.Contains(chars, "[") && strings.Contains(chars, "{") && strings.Trim(chars, "*?[]{}\\!^,") == "":
+					// "does it contain a glob metacharacter" is the predicate the glob model keeps per token
+					// (a token that is not metafree is realised with an alternation {..} or a *)
+					e.solver.declareFun("metafree", "(Str) Bool")
+					acc = symOr(acc, symBool{"(not (metafree " + x.t + "))"})
 				case strings.Trim(chars, "*?[") == "":
 					e.Stats.Assumptions["opaque tokens contain none of the glob characters * ? [ (patterns with wildcards are literals; symbolic patterns are realised as alternations)"] = true
 				default:
